@@ -2,6 +2,9 @@ module verifharness
 
 go 1.13
 
-require github.com/brutella/hc v0.0.0
+require (
+	github.com/brutella/hc v0.0.0
+	golang.org/x/crypto v0.0.0-20201221181555-eec23a3978ad
+)
 
 replace github.com/brutella/hc => /repo
